@@ -126,7 +126,8 @@ class KaniEngine:
         # --exact needs the full path
         cmd[-2] = self.modpath_of(h["file"]) + "::" + h["name"]
         log(f"[{self.name}] extracting counterexample for {h['name']}")
-        rc, out, _ = sh(cmd, cwd=info["crate_dir"], timeout=h["timeout"] * 4 + 600)
+        cmd += ["--harness-timeout", f"{min(h['timeout'], 300)}s"]
+        rc, out, _ = sh(cmd, cwd=info["crate_dir"], timeout=min(h["timeout"], 300) + 240)
         tests = []
         for tm in re.finditer(r"/// Test generated for harness.*?\n///\s*\n/// Check for `([a-z_]+)`: (.*?)\n(.*?)\n}", out, re.S):
             cat, desc, body = tm.group(1), tm.group(2).strip(), tm.group(3)
@@ -312,15 +313,18 @@ class VerusEngine:
         from main import discover
         names = [x.strip() for v in h.get("cex", []) for x in v.split(",") if x.strip()]
         allh = {x["name"]: x for x in discover()}
+        cache = self.__dict__.setdefault("_cex_cache", {})
         for n in names:
             kh = allh.get(n)
             if not kh:
                 continue
-            eng = ENGINES[kh["engine"]]
-            kh = dict(kh, timeout=min(kh["timeout"], 120))
-            cex = eng.counterexample(kh, log, None)
+            if n not in cache:
+                eng = ENGINES[kh["engine"]]
+                kh = dict(kh, timeout=min(kh["timeout"], 120))
+                cache[n] = (eng.counterexample(kh, log, None), kh)
+            cex, kh = cache[n]
             if cex and cex.get("values"):
-                cex["via"] = kh
+                cex = dict(cex, via=kh)
                 return cex
         return {"values": None, "raw": "no paired Kani harness produced a counterexample"}
 
